@@ -38,7 +38,7 @@ WEIGHTS = {"scenario": 0.6, "update_attrs": 0.2, "add_edge": 5, "delete_edge": 4
 
 
 def plan(tier, seed):
-    specs = common.session_plan(PROP, tier, seed, quick=2400, thorough=40000)
+    specs = common.session_plan(PROP, tier, seed, quick=7200, thorough=80000)
     specs.append({"kind": "construct", "n": 1500 if tier == "quick" else 20000,
                   "seed": common.seed_for(PROP, tier, seed, "construct")})
     return specs
